@@ -72,6 +72,8 @@ LOCI = {
                    ("T2", "G1", "+", [(1000, 1200), (3000, 3300)])],
     "alt_site_tie": [("T1", "G1", "+", [(1000, 1200), (2000, 2150), (3000, 3300)]),
                      ("T12", "G1", "+", [(1000, 1200), (2000, 2154), (3002, 3300)])],
+    "alt_site_other_end": [("T1", "G1", "+", [(1000, 1200), (2000, 2150), (3000, 3300)]),
+                           ("T13", "G1", "+", [(1000, 1200), (2004, 2150), (4000, 4200)])],
     "short_last": [("T1", "G1", "+", [(1000, 1200), (2000, 2900), (3400, 3460)])],
     "short_first": [("T1", "G1", "-", [(1000, 1060), (2000, 2900), (3400, 3700)])],
 }
